@@ -486,7 +486,8 @@ theorem rule_extAlong (bm : BMode) (H : Heap α) (gy : Tensor α) (x y dim : Nat
   have wgx := zip_wf Cmp.eq.fn (H.val x) yb wx w2 d2.symm
   have e3 := vCmp_same .eq (H.val x) yb wx w2 d2.symm
   have e4 := vArith_same .mul gyb ⟨(H.val x).dims, List.zipWith Cmp.eq.fn (H.val x).data yb.data⟩ w1 wgx d1
-  refine ⟨_, ?_, d1, zip_wf Arith.mul.fn gyb _ w1 wgx d1, ?_⟩
+  refine ⟨⟨gyb.dims, List.zipWith Arith.mul.fn gyb.data (List.zipWith Cmp.eq.fn (H.val x).data yb.data)⟩, ?_, d1,
+    zip_wf Arith.mul.fn gyb _ w1 wgx d1, ?_⟩
   · simp only [evalRule, bind, Out.bind, e1, e2, e3]; exact e4
   · intro i hi
     have hve := C02x.valid_eraseIdx dim hdim hi
@@ -552,9 +553,9 @@ theorem rule_extAlong_rank1 (bm : BMode) (H : Heap α) (x y n : Nat) (g m : α) 
   have e2 : el (H.val y) ([p].eraseIdx 0) = m := by rw [hy]; simp [el, at?_rank0]
   have e3 : el (H.val x) [p] = (H.val x).data[p]'(by omega) := by
     unfold el
-    have : H.val x = ⟨[n], (H.val x).data⟩ := by rw [← hdx]
-    rw [this, at?_rank1 n _ p hp, List.getElem?_eq_getElem (by simpa using (by omega : p < (H.val x).data.length))]
-    rfl
+    rw [C04x.at?_eq_data (H.val x) hv, hdx]
+    have hp' : p < (H.val x).data.length := by omega
+    simp [val, List.getElem?_eq_getElem hp']
   rw [e1, e2, e3]
 
 /-- the forward `MaxAlong(0)` / `MinAlong(0)` … of a rank-1 tensor: a scalar-shaped tensor holding the whole-tensor statistic -/
